@@ -6,6 +6,7 @@ import structgen
 from structgen import Ty, round_up
 
 ID = "C10"
+ENV_COMPARE = 30         # cases generated once more from a cargo build-script environment: same result (lib/runner.py)
 REQUIRES = ["Agree", "StructSpec", "C10Spec"]
 THEOREM_REQUIRES = ["C10"]
 THEOREMS = ["C10_holds", "C10_equal_layout_numbers", "C10_member_types", "C10_refuted_nonsquare"]
